@@ -74,6 +74,13 @@ def main():
                 nR = int(rng.choice([65, 97, 129]))
                 nZ = int(rng.choice([65, 97]))
                 e_ = {"topo": "custom", "centres": cen, "s": float(rng.choice([-1, 1])), "nR": nR, "nZ": nZ, "Rlim": [0.6, 2.4], "Zlim": [-0.9, 0.9], "angle_deg": float(np.degrees(ang))}
+            elif t % 7 == 3:
+                # a disconnected double null with a small opposite-sign dip inboard of the axis: a second
+                # O-point that the scan meets first and whose psi lies on the other side of the X-points
+                topo = "ldn"
+                eps_ = float(rng.uniform(0.004, 0.01))
+                r0 = 1.5 + float(rng.uniform(-0.01, 0.01))
+                e_ = {"topo": "custom", "centres": [[r0, 0.0, 1.0, 0.3], [r0, -0.6, 1.0, 0.3], [r0, 0.6 + eps_, 1.0, 0.3], [1.17, float(rng.uniform(-0.03, 0.03)), -0.45, 0.07]], "s": float(rng.choice([-1, 1])), "nR": int(rng.choice([97, 129])), "nZ": int(rng.choice([97, 129])), "Zlim": [-0.9, 0.9], "extra_dip": True}
             else:
                 e_ = None
             e_ = e_ or {"topo": topo, "s": float(rng.choice([-1, 1])), "nR": nR, "nZ": nZ, "shift": [float(rng.uniform(-0.03, 0.03)), float(rng.uniform(-0.03, 0.03))], "w": float(rng.uniform(0.28, 0.32)), "a2": float(rng.uniform(0.9, 1.1)), "eps": float(rng.uniform(0.001, 0.02)), "Zlim": [-0.9, 0.9]}
@@ -92,7 +99,7 @@ def main():
             prim = orO_i[0] if orO_i else None
             nexec += 1
             op, xp = quiet_call(critical.find_critical, R2, Z2, psi2D, 1e-6, 1000)
-            cls = "find_critical|%s|%s" % (topo if topo != "pair" else "pair(diagonal)" if 20 < (e_["angle_deg"] % 90) < 70 else "pair(axis-aligned)", "s+" if e_["s"] > 0 else "s-")
+            cls = "find_critical|%s|%s" % ((topo + "+inboard dip") if e_.get("extra_dip") else topo if topo != "pair" else "pair(diagonal)" if 20 < (e_["angle_deg"] % 90) < 70 else "pair(axis-aligned)", "s+" if e_["s"] > 0 else "s-")
             where = dict(e_)
             distinct += 1
             if len(samples) < 2:
